@@ -17,9 +17,10 @@ import p_analysis  # noqa: E402
 import p_tptp  # noqa: E402
 import p_syntax  # noqa: E402
 import p_cli  # noqa: E402
+import p_outline  # noqa: E402
 
 RUNNERS = dict(p_core.RUNNERS)
-RUNNERS.update({"C10": p_prover.run_C10, "C04": p_completion.run_C04, "C20": p_files.run_C20, "C03": p_equiv.run_C03, "C02": p_equiv.run_C02, "C19": p_equiv.run_C19, "C11": p_analysis.run_C11, "C06": p_tptp.run_C06, "C09": p_tptp.run_C09, "C12": p_tptp.run_C12, "C14": p_syntax.run_C14, "C15": p_syntax.run_C15, "C16": p_cli.run_C16, "C18": p_cli.run_C18})
+RUNNERS.update({"C10": p_prover.run_C10, "C04": p_completion.run_C04, "C20": p_files.run_C20, "C03": p_equiv.run_C03, "C02": p_equiv.run_C02, "C19": p_equiv.run_C19, "C11": p_analysis.run_C11, "C06": p_tptp.run_C06, "C09": p_tptp.run_C09, "C12": p_tptp.run_C12, "C14": p_syntax.run_C14, "C15": p_syntax.run_C15, "C16": p_cli.run_C16, "C18": p_cli.run_C18, "C13": p_outline.run_C13})
 
 
 def main():
